@@ -225,7 +225,7 @@ class Canon:
             elif isinstance(st, (ast.For, ast.AsyncFor, ast.While)):
                 st.body = self.block(st.body, "loop")
                 st.orelse = self.block(st.orelse, None) if st.orelse else []
-                out.append(st)
+                out.append(self._simple_header(st))
             elif isinstance(st, (ast.With, ast.AsyncWith)):
                 st.body = self.block(st.body, tail if not rest else None)
                 out.append(st)
@@ -375,11 +375,27 @@ class Canon:
         return new
 
     # ---- C7 and expression-level normalisation of simple statements
+    def _simple_header(self, st):
+        # `for k, v in d.items(): B` with k unused in B  ==  `for v in d.values(): B`
+        if isinstance(st, ast.For) and isinstance(st.target, ast.Tuple) and len(st.target.elts) == 2 and all(isinstance(e, ast.Name) for e in st.target.elts) and isinstance(st.iter, ast.Call) and isinstance(st.iter.func, ast.Attribute) and st.iter.func.attr == "items" and not st.iter.args and not st.iter.keywords:
+            k_, v_ = st.target.elts[0].id, st.target.elts[1].id
+            used_k = any(isinstance(n_, ast.Name) and n_.id == k_ for b_ in st.body + st.orelse for n_ in ast.walk(b_))
+            if not used_k and k_ != v_:
+                st.target = ast.copy_location(ast.Name(v_, ast.Store()), st.target)
+                st.iter = ast.copy_location(ast.Call(ast.Attribute(st.iter.func.value, "values", ast.Load()), [], []), st.iter)
+        if isinstance(st, ast.Assign) and len(st.targets) == 1 and isinstance(st.targets[0], ast.Name) and isinstance(st.value, ast.BinOp) and isinstance(st.value.left, ast.Name) and st.value.left.id == st.targets[0].id and isinstance(st.value.op, (ast.Add, ast.Sub, ast.Mult)):
+            st = _loc(ast.AugAssign(st.targets[0], st.value.op, st.value.right), st)
+        return st
+
     def _simple(self, st: ast.stmt) -> ast.stmt:
         if isinstance(st, ast.AnnAssign) and st.value is not None and isinstance(st.target, ast.Name):
             st = _loc(ast.Assign([st.target], st.value), st)
-        if isinstance(st, ast.Assign) and len(st.targets) == 1 and isinstance(st.targets[0], ast.Name) and isinstance(st.value, ast.BinOp) and isinstance(st.value.left, ast.Name) and st.value.left.id == st.targets[0].id and isinstance(st.value.op, (ast.Add, ast.Sub, ast.Mult)):
-            st = _loc(ast.AugAssign(st.targets[0], st.value.op, st.value.right), st)
+        # a call that never returns has no value to bind or hand back: `x = self.fail(..)` / `return self.fail(..)` == `self.fail(..)`
+        if isinstance(st, (ast.Assign, ast.Return)) and isinstance(st.value, ast.Call):
+            f_ = st.value.func
+            nm_ = f_.attr if isinstance(f_, ast.Attribute) else (f_.id if isinstance(f_, ast.Name) else "")
+            if nm_ in self.noreturn and (isinstance(st, ast.Return) or (len(st.targets) == 1 and isinstance(st.targets[0], ast.Name))):
+                st = _loc(ast.Expr(st.value), st)
         for fld, val in ast.iter_fields(st):
             if isinstance(val, ast.expr):
                 setattr(st, fld, _ExprNorm().visit(val))
@@ -1102,6 +1118,15 @@ def inline_helpers(fn: ast.FunctionDef, helpers: Dict[str, Tuple[ast.FunctionDef
                         # `pre`) that the caller still reads after this statement gets a private name in the copy
                         bound_h = set(_stores(hdef)) - {a_.arg for a_ in ast.walk(hdef.args) if isinstance(a_, ast.arg) and a_.arg not in {t.targets[0].id for t in pre} and _stores(hdef).get(a_.arg, 0) <= 1}
                         bound_h -= {(al.asname or al.name).split(".")[0] for n_ in ast.walk(hdef) if isinstance(n_, (ast.Import, ast.ImportFrom)) for al in n_.names}
+                        # parameters of lambdas and comprehension variables live in their own scope
+                        inner_ = set()
+                        for n_ in ast.walk(hdef):
+                            if isinstance(n_, ast.Lambda):
+                                inner_ |= {a_.arg for a_ in ast.walk(n_.args) if isinstance(a_, ast.arg)}
+                            elif isinstance(n_, (ast.ListComp, ast.SetComp, ast.DictComp, ast.GeneratorExp)):
+                                inner_ |= {x_.id for g_ in n_.generators for x_ in ast.walk(g_.target) if isinstance(x_, ast.Name)}
+                        outer_stores = {x_.id for st_ in ast.walk(hdef) if isinstance(st_, (ast.Assign, ast.AugAssign, ast.AnnAssign, ast.For, ast.With)) for t_ in (st_.targets if isinstance(st_, ast.Assign) else [getattr(st_, "target", None)] if not isinstance(st_, ast.With) else [i_.optional_vars for i_ in st_.items]) if t_ is not None for x_ in ast.walk(t_) if isinstance(x_, ast.Name)}
+                        bound_h -= (inner_ - outer_stores)
                         tgt_names = {n_.id for t in (st.targets if mode == "assign" else []) for n_ in ast.walk(t) if isinstance(n_, ast.Name)}
                         clash = sorted(nm_ for nm_ in bound_h if nm_ not in tgt_names and canon_flow.live_after(fn, blk, i, nm_, canon.noreturn))
                         if clash:
